@@ -67,7 +67,34 @@ pub broadcast proof fn b_x_marked(a: S, b: S)
         let w = lemma_x_unfold(a, b); lemma_x_marked(a, b, w.0, w.1);
     }
 }
-pub broadcast group group_exact { b_x_wake, b_x_mark, b_x_enter, b_x_sweep, b_x_final, b_x_marked }
+
+// ---- C07 across calls (exact_self): established by every wake-up, kept by every marking step, read off when marking is complete
+pub broadcast proof fn b_xs_wake(a: S, post: S)
+    ensures inv(a) && a.phase == Phase::Sleep && #[trigger] switch_rel(a, post, Phase::Mark) ==> exact_self(post)
+{
+    if inv(a) && a.phase == Phase::Sleep && switch_rel(a, post, Phase::Mark) {
+        let w = lemma_inv_unfold(a); lemma_x_wake(a, post, w.0, w.1);
+        lemma_x_rebase(a, post, post, w.0, w.1);
+    }
+}
+pub broadcast proof fn b_xs_mark(pre: S, post: S, r: ControlFlow<()>)
+    ensures #![trigger exact_self(pre), mark_one_rel(pre, post, r)]
+        exact_self(pre) && pre.phase == Phase::Mark && mark_one_rel(pre, post, r) && post.phase == Phase::Mark && post.stack =~= pre.stack ==> exact_self(post)
+{
+    if exact_self(pre) && pre.phase == Phase::Mark && mark_one_rel(pre, post, r) && post.phase == Phase::Mark && post.stack =~= pre.stack {
+        let w = lemma_x_unfold(pre, pre); lemma_x_mark_one(pre, pre, post, r, w.0, w.1);
+        lemma_x_rebase(pre, post, post, w.0, w.1);
+    }
+}
+pub broadcast proof fn b_xs_marked(b: S)
+    ensures #![trigger exact_self(b), dead_exact(b)]
+        exact_self(b) && b.phase == Phase::Mark && !gray_remaining_spec(b) && quiescent(b) ==> dead_exact(b)
+{
+    if exact_self(b) && b.phase == Phase::Mark && !gray_remaining_spec(b) && quiescent(b) {
+        let w = lemma_x_unfold(b, b); lemma_xs_marked(b, w.0, w.1);
+    }
+}
+pub broadcast group group_exact { b_x_wake, b_x_mark, b_x_enter, b_x_sweep, b_x_final, b_x_marked, b_xs_wake, b_xs_mark, b_xs_marked }
 
 } // mod bcast_x
 } // verus!
